@@ -134,3 +134,91 @@ func vxH_C07_rounds() {
 	coll2.Close()
 	store2.Close()
 }
+
+func init() { vxRegister("vxH_C07_recreate", vxH_C07_recreate) }
+
+// vxH_C07_recreate: a persisted child collection is deleted and created
+// again under the same name (writing another key) before - or after - the
+// next persistence round, which compacts according to a symbolic concern;
+// one more round follows. After every round, and after a clean close and
+// reopen, the store's snapshot and the collection equal the reference:
+// nothing of the deleted incarnation comes back.
+func vxH_C07_recreate() {
+	fs := vxNewFS()
+	so := vxStoreOptions(fs)
+	so.CompactionLevelMaxSegments = 1
+	so.CompactionLevelMultiplier = 2
+	so.CompactionPercentage = -1
+	po := StorePersistOptions{CompactionConcern: CompactionConcern(vxChoose(3))}
+	so.CollectionOptions.OnError = func(err error) {
+		vxAssert("no-persistence-error: "+err.Error(), false)
+	}
+	store, coll, err := OpenStoreCollection(fs.dir, so, po)
+	vxAssert("open-ok", err == nil)
+	ref := vxNewNode()
+	names := []string{"a"}
+	none := map[string]bool{}
+	var K, J vxKey
+	K.n, J.n = 1, 1
+	K.b[0], J.b[0] = 'k', 'j'
+	kb, jb := vxKeyBytes(K), vxKeyBytes(J)
+	exec := func(parent bool, child int, key byte) { // child: 0 none, 1 write, 2 delete
+		b, berr := coll.NewBatch(4, 64)
+		vxAssert("newbatch-ok", berr == nil)
+		if parent {
+			ents := vxFixedSet()
+			vxFillBatch(b, ents)
+			ref.layers = append(ref.layers, ents)
+		}
+		switch child {
+		case 1:
+			cb, cerr := b.NewChildCollectionBatch("a", BatchOptions{TotalOps: 2, TotalKeyValBytes: 16})
+			vxAssert("childbatch-ok", cerr == nil)
+			ents := vxFixedSet()
+			ents[0].k.b[0] = key
+			vxFillBatch(cb, ents)
+			if ref.kids["a"] == nil {
+				ref.kids["a"] = vxNewNode()
+			}
+			ref.kids["a"].layers = append(ref.kids["a"].layers, ents)
+		case 2:
+			vxAssert("delchild-ok", b.DelChildCollection("a") == nil)
+			delete(ref.kids, "a")
+		}
+		vxAssert("executebatch-ok", coll.ExecuteBatch(b, WriteOptions{}) == nil)
+		b.Close()
+	}
+	check := func(tag string) {
+		ss, serr := store.Snapshot()
+		vxAssert("store-snapshot-ok", serr == nil)
+		vxCheckTree(tag+"-store", ss, ref, K, kb, names, none)
+		vxCheckTree(tag+"-store2", ss, ref, J, jb, names, none)
+		ss.Close()
+		cs, cerr := coll.Snapshot()
+		vxAssert("coll-snapshot-ok", cerr == nil)
+		vxCheckTree(tag+"-coll", cs, ref, K, kb, names, none)
+		vxCheckTree(tag+"-coll2", cs, ref, J, jb, names, none)
+		cs.Close()
+	}
+	exec(vxChoose(2) == 1, 1, 'k')
+	vxDrain(coll)
+	check("first")
+	exec(true, 2, 0) // the deletion travels with a parent write (see C11-child-delete-alone-not-persisted)
+	if vxChoose(2) == 1 {
+		vxDrain(coll)
+	}
+	exec(false, 1, 'j') // the child is created again
+	vxDrain(coll)
+	check("recreated")
+	exec(true, vxChoose(2), 'k')
+	vxDrain(coll)
+	check("later")
+	coll.Close()
+	store.Close()
+	vxQuiesce()
+	store, coll, err = OpenStoreCollection(fs.dir, so, po)
+	vxAssert("reopen-ok", err == nil)
+	check("reopened")
+	coll.Close()
+	store.Close()
+}
